@@ -18,7 +18,7 @@ var externModelDocs = map[string]string{
 	"strings.HasPrefix":             "HasPrefix(s, lit) <=> len(s) >= len(lit) && s[i] == lit[i] for all i (lit constant)",
 	"strings.HasSuffix":             "HasSuffix(s, lit) <=> len(s) >= len(lit) && s[len(s)-len(lit)+i] == lit[i] (lit constant)",
 	"unicode/utf8.DecodeRuneInString": "DecodeRuneInString(s): len(s)==0 => (RuneError,0); else 1<=size<=4, size<=len(s), 0<=r<=0x10FFFF, s[0]<0x80 => (r,size)==(s[0],1), s[0]>=0x80 => r>=0x80",
-	"strings.ContainsRune":          "ContainsRune(lit, r) <=> r is one of the runes of the constant lit (ASCII constants only)",
+	"strings.ContainsRune":          "ContainsRune(lit, r) <=> r is one of the runes of the constant lit (ASCII constants only); for any other set only ContainsRune(s, r) => r >= 0",
 	"(*sync.Mutex).Lock":            "Lock sets the ghost flag held(m); requires !held(m) (no re-entrancy)",
 	"(*sync.Mutex).Unlock":          "Unlock requires held(m) and clears it",
 }
@@ -158,13 +158,17 @@ func modelDecodeRune(e *Enc, c *ssa.CallCommon, args []Val, pos token.Pos) ([]Va
 
 func modelContainsRune(e *Enc, c *ssa.CallCommon, args []Val, pos token.Pos) ([]Val, bool) {
 	lit, ok := e.stringOfValue(c.Args[0])
-	if !ok {
-		return nil, false
-	}
-	for i := 0; i < len(lit); i++ {
+	for i := 0; ok && i < len(lit); i++ {
 		if lit[i] >= 0x80 {
-			return nil, false
+			ok = false
 		}
+	}
+	if !ok {
+		// a set that is not an ASCII constant: only "a string contains no negative rune" is modelled
+		// (IndexRune returns -1 for values that are not valid runes)
+		r := e.fresh("containsrune", SBool)
+		e.assert(Implies(r, Ge(e.coerce(args[1]), IntLit(0))))
+		return []Val{{T: r, Typ: types.Typ[types.Bool]}}, true
 	}
 	rv := e.coerce(args[1])
 	var alts []Term
